@@ -18,6 +18,7 @@ import Grip.Spec.C10
 import GripProofs.Lemmas.C10Order
 import GripProofs.Lemmas.C10Map
 import GripProofs.Lemmas.C10Iter
+import GripProofs.Lemmas.C10Rev
 
 namespace Grip.Props.C10
 open Grip Grip.Bytes Grip.SMap Grip.Spec.C10 Grip.C10
@@ -167,6 +168,40 @@ theorem next_invalid (m : List KV) (f : Bool) :
 theorem scan_eq_filter {m : List KV} (hs : Sorted m) (it : Iter) (p : Bytes) :
     (Iter.scan m it p).1 = prefixEntries m p :=
   Lemmas.scan_eq_filter hs it p
+
+/-- The reverse loop of kvindex's numeric scans —
+    `for it.SeekReverse(k); it.Valid() && HasPrefix(it.Key(), p); it.Next()` — enumerates the
+    entries with key ≤ `k` in DESCENDING key order for as long as they carry the prefix `p`,
+    whatever state the (reused) iterator was in.  Unbounded: any map size. -/
+theorem scanReverse_eq {m : List KV} (hs : Sorted m) (it : Iter) (k p : Bytes) :
+    (Iter.scanReverse m it k p).1 =
+      ((m.filter (fun kv => ble kv.1 k)).reverse).takeWhile (fun kv => hasPrefix kv.1 p) :=
+  Lemmas.scanReverse_eq hs it k p
+
+/-- Hence everything a reverse scan returns is an entry of the map with the prefix and a key at or
+    below the start key. -/
+theorem scanReverse_sound {m : List KV} (hs : Sorted m) (it : Iter) (k p : Bytes) :
+    ∀ kv ∈ (Iter.scanReverse m it k p).1, kv ∈ m ∧ hasPrefix kv.1 p = true ∧ ble kv.1 k = true := by
+  intro kv hkv
+  rw [scanReverse_eq hs] at hkv
+  have hp : hasPrefix kv.1 p = true := by
+    have : ∀ (l : List KV), kv ∈ l.takeWhile (fun kv => hasPrefix kv.1 p) → hasPrefix kv.1 p = true := by
+      intro l
+      induction l with
+      | nil => intro h; cases h
+      | cons a l ih =>
+        intro h
+        rw [List.takeWhile_cons] at h
+        split at h
+        · rename_i ha
+          rcases List.mem_cons.mp h with rfl | h
+          · exact ha
+          · exact ih h
+        · cases h
+    exact this _ hkv
+  have hm := (List.takeWhile_sublist _).mem hkv
+  rw [List.mem_reverse, List.mem_filter] at hm
+  exact ⟨hm.1, hp, hm.2⟩
 
 /-- The scan with an empty prefix is a full dump. -/
 theorem scan_all {m : List KV} (hs : Sorted m) (it : Iter) : (Iter.scan m it []).1 = m := by
